@@ -107,7 +107,9 @@ SumKidsObs(C, f, n) == RSumSeq([i \in 1..Len(C.kids[n]) |-> f[C.kids[n][i]]])
 \* the ordinary rule (known finding K4)
 IsK4(C, s, e) ==
   /\ e[1] \in {"C05.sizing", "C06.rebalance"} /\ e[2] = "ok" /\ s.t > 0 /\ ~Bad(e[4]) /\ ~IsZero(e[4])
-  /\ RAdd(e[4], SecVal(C, s, e[3])) = Zero /\ e[5] # RNeg(s.pos[e[3]])
+  \* (value and position as they were when this trade was sized: one event may
+  \* trade a security, go bankrupt and liquidate it)
+  /\ RAdd(e[4], e[6]) = Zero /\ e[5] # RNeg(e[7])
 \* (a liquidation at a date change trades at the new date's prices)
 AtPost(s, r) == [s EXCEPT !.t = r.st.t]
 K4Nodes(C, s, r) == {r.chk[i][3] : i \in {j \in 1..Len(r.chk) : IsK4(C, AtPost(s, r), r.chk[j])}}
@@ -293,7 +295,8 @@ C06Clauses(C, post, e) ==
                         IF exact THEN ChkEq(Val(C, post, k), tgt, C.D)
                         ELSE ChkCmp(Cmp(dev, bnd), {-1, 0})>>]
 
-Poisoned(C, s) == \E n \in Nodes(C) : IsOvf(s.cash[n]) \/ IsOvf(s.pos[n])
+\* (a value outside 32-bit rationals also hides whether the tree is bankrupt)
+Poisoned(C, s) == \E n \in Nodes(C) : IsOvf(s.cash[n]) \/ IsOvf(s.pos[n]) \/ IsOvf(s.sval[n])
 
 Knowns(cl) == {<<cl[i][3], cl[i][1], cl[i][2]>> : i \in {j \in 1..Len(cl) : cl[j][3] \notin {"ok", "fail", "skip"}}}
 Names(cl, v) == {<<cl[i][1], cl[i][2]>> : i \in {j \in 1..Len(cl) : cl[j][3] = v}}
